@@ -292,6 +292,185 @@ theorem history_valid (eps : ℝ) (h0 : 0 ≤ eps) (h1 : eps ≤ 1) (ops : List 
   have := gen ops hops X 0 (by simp [show X.normSq = 1 from hX])
   simpa using this
 
+/-! ## Histories in *rounded* arithmetic
+
+`history_valid` is about exact arithmetic. The property says "up to accumulated round-off", so here the
+history is the one a floating-point machine computes: every computed state `X'` is only *near* the
+exact result of the operation applied to the previous computed state (norm-wise relative distance `≤ γ`;
+the operands of the products are only near-unit, `|‖Y‖ − 1| ≤ γ`). The theorem bounds the norm drift
+after ANY number of operations: `(1−γ)^{2n} ≤ ‖X_n‖ ≤ (1+γ)^{2n}`, hence `1 − 2nγ ≤ ‖X_n‖ ≤ e^{2nγ}` —
+linear growth, no blow-up. The per-step hypothesis is what the correspondence check measures on every
+step of every sampled history (γ = 8·eps of the dtype). -/
+
+noncomputable def Quat.nrm (p : Quat ℝ) : ℝ := Real.sqrt p.normSq
+def Quat.dist2 (p q : Quat ℝ) : ℝ := (p.x - q.x) ^ 2 + (p.y - q.y) ^ 2 + (p.z - q.z) ^ 2 + (p.w - q.w) ^ 2
+
+theorem Quat.normSq_nonneg' (p : Quat ℝ) : 0 ≤ p.normSq := by
+  unfold Quat.normSq; nlinarith [mul_self_nonneg p.x, mul_self_nonneg p.y, mul_self_nonneg p.z, mul_self_nonneg p.w]
+theorem Quat.dist2_nonneg (p q : Quat ℝ) : 0 ≤ Quat.dist2 p q := by unfold Quat.dist2; positivity
+theorem Quat.dist2_comm (p q : Quat ℝ) : Quat.dist2 p q = Quat.dist2 q p := by unfold Quat.dist2; ring
+theorem Quat.nrm_nonneg (p : Quat ℝ) : 0 ≤ p.nrm := Real.sqrt_nonneg _
+theorem Quat.nrm_mul (p q : Quat ℝ) : (p.mul q).nrm = p.nrm * q.nrm := by
+  unfold Quat.nrm; rw [Quat.normSq_mul, Real.sqrt_mul (Quat.normSq_nonneg' p)]
+theorem Quat.nrm_conj (p : Quat ℝ) : p.conj.nrm = p.nrm := by unfold Quat.nrm; rw [Quat.normSq_conj]
+
+/-- triangle inequality for the quaternion norm (Cauchy–Schwarz through Lagrange's identity) -/
+theorem Quat.nrm_le_add (p q : Quat ℝ) : p.nrm ≤ q.nrm + Real.sqrt (Quat.dist2 p q) := by
+  have hq := Quat.normSq_nonneg' q
+  have hd := Quat.dist2_nonneg p q
+  set r : Quat ℝ := ⟨p.x - q.x, p.y - q.y, p.z - q.z, p.w - q.w⟩ with hr
+  have hrn : r.normSq = Quat.dist2 p q := by simp only [hr, Quat.normSq, Quat.dist2]; ring
+  -- Cauchy–Schwarz
+  have cs : (q.x * r.x + q.y * r.y + q.z * r.z + q.w * r.w) ^ 2 ≤ q.normSq * r.normSq := by
+    unfold Quat.normSq
+    nlinarith [sq_nonneg (q.x * r.y - q.y * r.x), sq_nonneg (q.x * r.z - q.z * r.x), sq_nonneg (q.x * r.w - q.w * r.x),
+      sq_nonneg (q.y * r.z - q.z * r.y), sq_nonneg (q.y * r.w - q.w * r.y), sq_nonneg (q.z * r.w - q.w * r.z)]
+  have cs' : q.x * r.x + q.y * r.y + q.z * r.z + q.w * r.w ≤ q.nrm * Real.sqrt (Quat.dist2 p q) := by
+    have h1 := Real.abs_le_sqrt cs
+    rw [Real.sqrt_mul hq, hrn] at h1
+    exact le_trans (le_abs_self _) h1
+  unfold Quat.nrm at *
+  rw [Real.sqrt_le_iff]
+  refine ⟨by positivity, ?_⟩
+  have e : p.normSq = q.normSq + 2 * (q.x * r.x + q.y * r.y + q.z * r.z + q.w * r.w) + Quat.dist2 p q := by
+    simp only [hr, Quat.normSq, Quat.dist2]; ring
+  have s1 := Real.sq_sqrt hq
+  have s2 := Real.sq_sqrt hd
+  rw [e]
+  nlinarith [cs', s1, s2]
+
+/-- a computed value within relative distance `γ` of the exact one has a norm within `(1±γ)` of it -/
+theorem Quat.nrm_near (E X' : Quat ℝ) (γ : ℝ) (hγ : 0 ≤ γ) (h : Quat.dist2 X' E ≤ γ ^ 2 * E.normSq) :
+    (1 - γ) * E.nrm ≤ X'.nrm ∧ X'.nrm ≤ (1 + γ) * E.nrm := by
+  have hd : Real.sqrt (Quat.dist2 X' E) ≤ γ * E.nrm := by
+    unfold Quat.nrm
+    rw [← Real.sqrt_sq hγ, ← Real.sqrt_mul (sq_nonneg γ)]
+    exact Real.sqrt_le_sqrt h
+  have t1 := Quat.nrm_le_add X' E
+  have t2 := Quat.nrm_le_add E X'
+  rw [Quat.dist2_comm E X'] at t2
+  constructor <;> linarith
+
+/-- a near-unit operand -/
+def HOp.okR (γ : ℝ) : HOp → Prop
+  | .mulL Y => |Y.nrm - 1| ≤ γ
+  | .mulR Y => |Y.nrm - 1| ≤ γ
+  | _ => True
+
+/-- the history a rounding machine computes: the list pairs every operation with the state the machine
+stored after it; each stored state is within relative distance `γ` of the exact result of the operation on
+the *previously stored* state -/
+def Computed (eps γ : ℝ) : Quat ℝ → List (HOp × Quat ℝ) → Prop
+  | _, [] => True
+  | X, (op, X') :: rest =>
+      op.okR γ ∧ Quat.dist2 X' (op.apply eps X) ≤ γ ^ 2 * (op.apply eps X).normSq ∧ Computed eps γ X' rest
+
+/-- the last stored state -/
+def lastState (X : Quat ℝ) (h : List (HOp × Quat ℝ)) : Quat ℝ := h.foldl (fun _ p => p.2) X
+
+theorem so3Exp_nrm_near (eps : ℝ) (h0 : 0 ≤ eps) (h1 : eps ≤ 1) (a : Vec3 ℝ) :
+    1 - eps ^ 6 ≤ (so3Exp eps a).nrm ∧ (so3Exp eps a).nrm ≤ 1 + eps ^ 6 := by
+  have hm := abs_le.mp (so3Exp_normSq_near eps a h0 h1)
+  have ht0 : 0 ≤ eps ^ 6 := by positivity
+  have ht1 : eps ^ 6 ≤ 1 := pow_le_one₀ h0 h1
+  unfold Quat.nrm
+  constructor
+  · apply Real.le_sqrt_of_sq_le
+    nlinarith
+  · rw [Real.sqrt_le_iff]
+    refine ⟨by linarith, ?_⟩
+    nlinarith
+
+/-- one exact operation changes the norm by a factor in `[1−γ, 1+γ]` -/
+theorem HOp.exact_nrm (eps γ : ℝ) (h0 : 0 ≤ eps) (h1 : eps ≤ 1) (heg : eps ^ 6 ≤ γ)
+    (X : Quat ℝ) (op : HOp) (hop : op.okR γ) :
+    (1 - γ) * X.nrm ≤ (op.apply eps X).nrm ∧ (op.apply eps X).nrm ≤ (1 + γ) * X.nrm := by
+  have hX := Quat.nrm_nonneg X
+  have hγ : 0 ≤ γ := le_trans (by positivity) heg
+  cases op with
+  | mulL Y =>
+    simp only [HOp.apply, Quat.nrm_mul]
+    have := abs_le.mp (hop : |Y.nrm - 1| ≤ γ)
+    constructor <;> nlinarith
+  | mulR Y =>
+    simp only [HOp.apply, Quat.nrm_mul]
+    have := abs_le.mp (hop : |Y.nrm - 1| ≤ γ)
+    constructor <;> nlinarith
+  | inv =>
+    simp only [HOp.apply, Quat.nrm_conj]
+    constructor <;> nlinarith
+  | retr a =>
+    simp only [HOp.apply, SO3Retr, Quat.nrm_mul]
+    have := so3Exp_nrm_near eps h0 h1 a
+    constructor <;> nlinarith
+
+/-- **Norm drift over any computed history.** After `n` operations carried out by a machine whose every
+step is relatively `γ`-accurate, the stored element's norm is within `(1∓γ)^{2n}` of the initial one —
+for every `n`, every mix of products (either side), inverses and retractions. -/
+theorem rounded_history_norm (eps γ : ℝ) (h0 : 0 ≤ eps) (h1 : eps ≤ 1) (hγ1 : γ ≤ 1) (heg : eps ^ 6 ≤ γ)
+    (h : List (HOp × Quat ℝ)) : ∀ (X : Quat ℝ), Computed eps γ X h →
+      (1 - γ) ^ (2 * h.length) * X.nrm ≤ (lastState X h).nrm ∧
+      (lastState X h).nrm ≤ (1 + γ) ^ (2 * h.length) * X.nrm := by
+  have hγ : 0 ≤ γ := le_trans (by positivity) heg
+  induction h with
+  | nil => intro X _; simp [lastState]
+  | cons p rest ih =>
+    intro X hc
+    obtain ⟨op, X'⟩ := p
+    obtain ⟨hop, hd, hrest⟩ := hc
+    have hE := HOp.exact_nrm eps γ h0 h1 heg X op hop
+    have hN := Quat.nrm_near (op.apply eps X) X' γ hγ hd
+    have hXn := Quat.nrm_nonneg X
+    have hEn := Quat.nrm_nonneg (op.apply eps X)
+    have lo : (1 - γ) ^ 2 * X.nrm ≤ X'.nrm := by nlinarith [mul_le_mul_of_nonneg_left hE.1 (by linarith : 0 ≤ 1 - γ)]
+    have hi : X'.nrm ≤ (1 + γ) ^ 2 * X.nrm := by nlinarith [mul_le_mul_of_nonneg_left hE.2 (by linarith : 0 ≤ 1 + γ)]
+    have := ih X' hrest
+    have e : lastState X ((op, X') :: rest) = lastState X' rest := by simp [lastState]
+    rw [e]
+    have hp1 : 0 ≤ (1 - γ) ^ (2 * rest.length) := pow_nonneg (by linarith) _
+    have hp2 : 0 ≤ (1 + γ) ^ (2 * rest.length) := pow_nonneg (by linarith) _
+    have l1 : (2 * ((op, X') :: rest).length) = 2 * rest.length + 2 := by simp [Nat.mul_add]
+    rw [l1, pow_add, pow_add]
+    constructor
+    · calc (1 - γ) ^ (2 * rest.length) * (1 - γ) ^ 2 * X.nrm
+          = (1 - γ) ^ (2 * rest.length) * ((1 - γ) ^ 2 * X.nrm) := by ring
+        _ ≤ (1 - γ) ^ (2 * rest.length) * X'.nrm := mul_le_mul_of_nonneg_left lo hp1
+        _ ≤ _ := this.1
+    · calc (lastState X' rest).nrm ≤ (1 + γ) ^ (2 * rest.length) * X'.nrm := this.2
+        _ ≤ (1 + γ) ^ (2 * rest.length) * ((1 + γ) ^ 2 * X.nrm) := mul_le_mul_of_nonneg_left hi hp2
+        _ = _ := by ring
+
+/-- **Linear drift.** Starting from a unit element: `1 − 2nγ ≤ ‖X_n‖ ≤ exp(2nγ)`; for `n = 10⁴` float64
+operations with `γ = 8·2⁻⁵²` this is `|‖X_n‖ − 1| < 10⁻¹⁰`. -/
+theorem rounded_history_drift (eps γ : ℝ) (h0 : 0 ≤ eps) (h1 : eps ≤ 1) (hγ1 : γ ≤ 1) (heg : eps ^ 6 ≤ γ)
+    (h : List (HOp × Quat ℝ)) (X : Quat ℝ) (hX : SO3.Valid X) (hc : Computed eps γ X h) :
+    1 - 2 * h.length * γ ≤ (lastState X h).nrm ∧ (lastState X h).nrm ≤ Real.exp (2 * h.length * γ) := by
+  have hγ : 0 ≤ γ := le_trans (by positivity) heg
+  have hn : X.nrm = 1 := by unfold Quat.nrm; rw [(hX : X.normSq = 1)]; simp
+  have := rounded_history_norm eps γ h0 h1 hγ1 heg h X hc
+  rw [hn, mul_one, mul_one] at this
+  constructor
+  · have b := one_add_mul_le_pow (show (-2 : ℝ) ≤ -γ by linarith) (2 * h.length)
+    rw [show (1 : ℝ) + -γ = 1 - γ by ring] at b
+    have hb := le_trans b this.1
+    push_cast at hb
+    linarith
+  · refine le_trans this.2 ?_
+    have e1 : 1 + γ ≤ Real.exp γ := by linarith [Real.add_one_le_exp γ]
+    calc (1 + γ) ^ (2 * h.length) ≤ Real.exp γ ^ (2 * h.length) := pow_le_pow_left₀ (by linarith) e1 _
+      _ = Real.exp (((2 * h.length : ℕ) : ℝ) * γ) := by rw [Real.exp_nat_mul]
+      _ = _ := by push_cast; ring_nf
+
+/-- non-vacuity: a two-step computed history (product by a slightly non-unit element stored with a
+perturbation, then an inverse stored exactly) satisfies `Computed` with `γ = 1/100` -/
+example : Computed (1/1000) (1/100) (⟨0, 0, 0, 1⟩ : Quat ℝ)
+    [(.mulL ⟨0, 0, 0, 1⟩, ⟨1/200, 0, 0, 1⟩), (.inv, ⟨-(1/200), 0, 0, 1⟩)] := by
+  refine ⟨?_, ?_, ?_, ?_, trivial⟩
+  · simp [HOp.okR, Quat.nrm, Quat.normSq]
+  · simp only [HOp.apply, Quat.dist2]; lie_unfold; norm_num
+  · trivial
+  · simp only [HOp.apply, Quat.dist2]; lie_unfold; norm_num
+
 /-- on the closed-form branch (every retraction angle above `eps`) validity is preserved *exactly* -/
 theorem SO3_valid_retr (eps : ℝ) (h0 : 0 ≤ eps) (X : Quat ℝ) (hX : SO3.Valid X) (a : Vec3 ℝ) (ha : eps < a.norm) :
     SO3.Valid (SO3Retr eps X a) := by
